@@ -233,7 +233,12 @@ class Packetizer(LiteXModule):
         )
         if not aligned:
             header_offset_multiplier = 1 if header_words == 1 else 2
-            self.sync += If(source.ready, sink_d.eq(sink))
+            self.sync += [
+                # Keep the last *accepted* beat (idle cycles must not overwrite the residue bytes).
+                If(sink.valid & sink.ready, sink_d.eq(sink)),
+                # Packet done: forget its last flag so that the next packet does not start terminated.
+                If(source.valid & source.ready & source.last, sink_d.last.eq(0))
+            ]
             fsm.act("UNALIGNED-DATA-COPY",
                 source.valid.eq(sink.valid | sink_d.last),
                 source.last.eq(sink_d.last),
